@@ -16,7 +16,7 @@ within the deadline, number of errors, delivered entries) and the harness's own 
 stream with encoding/xml (the abstract trace), on which the model is run.
 -/
 namespace PolyVerif.Driver.C20
-open PolyVerif PolyVerif.Uniprot PolyVerif.Spec
+open PolyVerif PolyVerif.Uniprot PolyVerif.Spec.UniprotSpec
 
 def parseList (x : String) : List Str :=
   match x.splitOn ":" with
